@@ -3,6 +3,7 @@ package rules
 import (
 	"fmt"
 	"go/token"
+	"os"
 	"sort"
 	"strings"
 
@@ -20,6 +21,7 @@ func c07(c *eng.Ctx, r *eng.Report) {
 		"R7.3 for wrapped Ethereum transactions the sender is recovered with an EIP-155 signer built from this chain's id at the given height, the decoded payload is the one converted, every field ConvertTx fills is compared by compareTx, and nil is returned only when the comparison holds; " +
 		"R7.4 every Transaction field read during execution is bound by GenHash or listed in the reviewed exclusion table; " +
 		"R7.5 every call of TransactionPool.AddTransaction is dominated by a successful VerifyTransaction of the same transaction (one-level inlining through sendTransaction). " +
+		"R7.6 whether a transaction is authentic is a function of the transaction and the height: no cache, package-variable store or unreviewed shared object in the cone of VerifyTransaction and its steps (scratch pools that are Reset() by their taker and the type-keyed RLP codec table excepted). " +
 		"Not decided: ECDSA soundness, bit-flip rejection, acceptance of every honestly signed transaction."
 	r.Assume = []string{"secp256k1.VerifySignature / RecoverPubkey implement ECDSA over secp256k1 (libsecp256k1 via cgo)", "EIP-155 signer code in eth_tx is the upstream implementation"}
 	c07Pipeline(c, r)
@@ -27,6 +29,7 @@ func c07(c *eng.Ctx, r *eng.Report) {
 	c07Eth(c, r)
 	c07HashBinds(c, r)
 	c07Admission(c, r)
+	c07Pure(c, r)
 }
 
 // nilEdgesAt lists the call results known to be nil at instruction in (err == nil edges).
@@ -264,6 +267,35 @@ func c07Eth(c *eng.Ctx, r *eng.Report) {
 			}
 		}
 		r.Check(len(bad) == 0, rule, "service.verifyETHTx:binding", c.Pos(fn.Pos()), "sender recovered under this chain's EIP-155 id; decoded payload converted and compared; nil only when all hold", strings.Join(uniq(bad), "; "))
+		// "under EIP-155 for this chain": EIP155Signer.Sender falls back to the Homestead rule for a payload without
+		// replay protection (V = 27/28), so acceptance must also rest on Protected() — or on the wrapper's chain id
+		// being compared with the chain's, which for such a payload is "0"
+		eip155 := false
+		for _, re := range eng.Returns(fn) {
+			if !eng.IsNilConst(re.Incoming(0)) {
+				continue
+			}
+			for _, cd := range eng.CondsAt(re.Ret) {
+				d := eng.Desc(cd.V)
+				if strings.Contains(d, ".Protected(") && cd.True {
+					eip155 = true
+				}
+				if call, isC := cd.V.(*ssa.Call); isC && strings.HasSuffix(eng.CallName(&call.Call), "verifyTxChainId") {
+					eip155 = true
+				}
+			}
+			nils := nilEdgesAt(re.Ret)
+			for v := range nils {
+				if call, isC := v.(*ssa.Call); isC && strings.HasSuffix(eng.CallName(&call.Call), "verifyTxChainId") {
+					eip155 = true
+				}
+			}
+		}
+		// the fallback itself may have been removed from the signer
+		if sd := c.Func("eth_tx", "(EIP155Signer).Sender"); sd != nil && len(callsNamed(sd, "(eth_tx.HomesteadSigner).Sender")) == 0 {
+			eip155 = true
+		}
+		r.Check(eip155, rule, "service.verifyETHTx:eip155-only", c.Pos(fn.Pos()), "a payload without EIP-155 replay protection is refused", "verifyETHTx accepts a payload that is not signed under EIP-155: EIP155Signer.Sender recovers an unprotected (V = 27/28) transaction with the Homestead rule, ConvertTx derives chain id 0 from it, compareTx only compares the wrapper with that, and neither Protected() nor the chain-id step is consulted — the same signed bytes are valid on every chain")
 	}
 	// ConvertTx fields ⊆ compareTx fields
 	conv := c.Func("eth_tx", "ConvertTx")
@@ -555,4 +587,78 @@ func c07Admission(c *eng.Ctx, r *eng.Report) {
 	if n < 2 {
 		r.Fail(rule, "admit:sites", "", fmt.Sprintf("only %d AddTransaction call sites found", n))
 	}
+}
+
+// c07Pure: whether a transaction is authentic is a function of the transaction
+// and the height. A memo in the verification cone — the parsed chain id kept
+// from the first call, a signer cached per process — makes the verdict depend
+// on what was verified before.
+func c07Pure(c *eng.Ctx, r *eng.Report) {
+	const rule = "R7.6"
+	r.Min(rule, 1)
+	var entries []*ssa.Function
+	for _, n := range []string{"VerifyTransaction", "verifyTransactionHash", "verifyTransactionSign", "verifyTransactionChainId", "verifyETHTx", "compareTx"} {
+		if fn := c.Func("service", n); fn != nil {
+			entries = append(entries, fn)
+		}
+	}
+	if !r.Anchor(len(entries) >= 4, rule, "service.VerifyTransaction and its steps") {
+		return
+	}
+	in := func(fn *ssa.Function) bool {
+		p := eng.FuncPkgPath(fn)
+		if strings.Contains(p, "/middleware/log") || strings.Contains(p, "/middleware/notify") {
+			return false
+		}
+		return strings.HasPrefix(p, eng.Mod+"/src/")
+	}
+	cone := c.ConeOf(entries, in)
+	bad := ""
+	n := 0
+	for _, fn := range cone.Sorted() {
+		if !in(fn) || fn.Blocks == nil {
+			continue
+		}
+		n++
+		for _, h := range eng.ScanNondeterminism(fn) {
+			switch h.Kind {
+			case "cache", "syncmap-range":
+			case "global-store":
+				if _, ok := c07SharedOK["global-store:"+eng.FuncName(fn)]; ok {
+					continue
+				}
+			case "shared-object":
+				if _, ok := c07SharedOK[h.Recv]; ok {
+					continue
+				}
+				// a sync.Pool of scratch objects whose taker re-initialises what it got (Reset()/reset() in the same function)
+				if strings.Contains(h.Detail, "(*sync.Pool).") {
+					resets := false
+					for _, s2 := range eng.Sites(fn) {
+						if n2 := s2.Name(); strings.HasSuffix(n2, ".Reset") || strings.HasSuffix(n2, ").reset") {
+							resets = true
+						}
+					}
+					if resets {
+						continue
+					}
+				}
+			default:
+				continue
+			}
+			if bad == "" {
+				bad = h.Detail + " in " + eng.FuncName(fn) + " (" + c.Pos(h.Pos) + "; " + cone.PathTo(fn) + ")"
+			}
+			if os.Getenv("RR_DEBUG") != "" {
+				fmt.Fprintln(os.Stderr, "R7.6 HIT", h.Kind, h.Recv, "|", h.Detail, "|", eng.FuncName(fn))
+			}
+		}
+	}
+	r.Extra["verify_cone_functions"] = n
+	r.Check(bad == "" && n >= 20, rule, "verify:pure", c.Pos(entries[0].Pos()), fmt.Sprintf("no process-local memo in the %d functions transaction verification reaches", n), "transaction verification consults process-local state: "+bad+" — whether a transaction is admitted then depends on what this process verified before (a chain id parsed at one height and reused at another lets a transaction signed for the old chain id through after the switch and rejects the honest one)")
+}
+
+// c07SharedOK: package-level objects the verification cone may call methods on (reviewed).
+var c07SharedOK = map[string]string{
+	"global-store:storage/rlp.cachedTypeInfo1": "RLP codec table memoised per Go type and struct tags (C08 R8.7 decides its key): a hit and a miss yield the same codec",
 }
